@@ -289,7 +289,7 @@ theorem file_roundtrip (c : Cfg) (tm : TM) (slices : List (List CS)) (kept : Lis
       readFileF c sub fuel (bytes ++ rest).toArray =
         ⟨.ok (1, 0), some (.ok ⟨⟨tm.table.entries, false⟩, cols.map Md.freeze⟩),
          slices.map (fun s => ⟨maskFrom sub 0 s⟩), some (.tableEnd bytes.length)⟩ := by
-  refine ⟨C04.file c (C03.canonPhys tm kept) slices, C03.file_bytes c tm slices kept hfold htab hcols hkept hsl, ?_⟩
+  refine ⟨C04.file c (C03.canonPhys tm kept) slices, C03.file_bytes c tm slices kept hfold htab hcols hkept hsl hn, ?_⟩
   have hn' : ∀ s ∈ slices, s.length = (C03.canonPhys tm kept).cols.length := by
     intro s hs; simp [C03.canonPhys, hn s hs]
   rw [C04.reads_wellformed c _ cols slices hok hn' hf sub rest fuel hfuel]
@@ -446,4 +446,49 @@ example :
       ⟨.ok (1, 0), some (.ok tm), [⟨[some cs]⟩], some (.tableEnd w.bytes.length)⟩ := by
   refine ⟨rfl, ?_⟩
   rfl
+
+/-! ### what the writer cannot represent is refused (repair F26)
+
+A table slice that does not have as many column slices as its table metadata has columns cannot be
+read back (`sbdf_ts_read` answers COLUMN_COUNT_MISMATCH); since the repair the writer answers that
+itself, before writing anything of the slice. -/
+
+theorem mismatching_slice_refused (c : Cfg) (tm : TM) (ts : TS) (h : ts.cols.length ≠ tm.cols.length) :
+    writeTSOf c tm ts = WOut.err .colCountMismatch := by
+  simp [writeTSOf, h]
+
+theorem st_append_ok {a b : WOut} (h : (a ++ b).st = .ok) : a.st = .ok ∧ b.st = .ok := by
+  have h' : (WOut.seq a b).st = .ok := h
+  unfold WOut.seq at h'
+  by_cases ha : a.st = .ok
+  · simp only [ha, if_true] at h'; exact ⟨ha, h'⟩
+  · simp only [ha, if_false] at h'
+
+theorem st_seqAll_ok (ws : List WOut) (h : (WOut.seqAll ws).st = .ok) : ∀ w ∈ ws, w.st = .ok := by
+  induction ws with
+  | nil => intro w hw; simp at hw
+  | cons x xs ih =>
+    intro w hw
+    have := st_append_ok (a := x) (b := WOut.seqAll xs) h
+    simp only [List.mem_cons] at hw
+    rcases hw with rfl | hw
+    · exact this.1
+    · exact ih this.2 w hw
+
+/-- if the writer calls for a whole table all report OK, every slice has the column count of the
+    table metadata — the writer never produces a file whose slices the reader would refuse for
+    their column count -/
+theorem written_slices_match (c : Cfg) (tm : TM) (tss : List TS) (bytes : Bytes)
+    (h : Emits (writeFile c ⟨tm, tss⟩) bytes) : ∀ ts ∈ tss, ts.cols.length = tm.cols.length := by
+  intro ts hts
+  have hst : (writeFile c ⟨tm, tss⟩).st = .ok := h.1
+  unfold writeFile at hst
+  have h1 := (st_append_ok hst).1
+  have h2 := (st_append_ok h1).2
+  have h3 := st_seqAll_ok _ h2 (writeTSOf c tm ts) (List.mem_map.mpr ⟨ts, hts, rfl⟩)
+  false_or_by_contra
+  rename_i hne
+  rw [mismatching_slice_refused c tm ts hne] at h3
+  simp [WOut.err] at h3
+
 end Sbdf.C01
